@@ -206,7 +206,20 @@ CL_LOAD = dict(
     cover=["return"],
 )
 
-CONTRACTS = [ES_VARS, DOCKER_INIT, CLEANUP, CL_LOAD, PROV_VARS]
+# ------------------------------------------------------------------------------------------------ which config files are templates: decided by the file's EXTENSION, compared as a whole
+EXTS = [".ini", ".txt", ".json", ".yml", ".yaml", ".options", ".properties"]
+PLAIN_TEXT = dict(
+    target="esrally/mechanic/provisioner.py::plain_text",
+    prop="C13",
+    params={"file": "str"},
+    opaque={"EXT": dict(names=["f"], args=["str"], ret="str")},
+    externals={"io.splitext": dict(returns="tuple[str,str]", pure=True, ensures=["result[1] == EXT(a0)"])},
+    returns="bool",
+    ensures=["result == (" + " or ".join(f"EXT(file) == '{x}'" for x in EXTS) + ")"],
+    cover=["return"],
+)
+
+CONTRACTS = [ES_VARS, DOCKER_INIT, CLEANUP, CL_LOAD, PROV_VARS, PLAIN_TEXT]
 ASSUMPTIONS = ["str(int), os.path.join and str.join are uninterpreted functions; values of mixed types in variable maps are boxed into an untyped universe (injective embeddings)", "os.path.exists returns an arbitrary bool; shutil.rmtree may raise OSError"]
 NOT_DECIDED = ["team.load_car car-order loop, _apply_config template mirroring (os.walk, Jinja) -- not under contract"]
 TRUSTED = []
